@@ -52,6 +52,14 @@ theorem procEv_spec (c : Core) (a : AEv) (p qd : Bool) (hb : c.bad = false) (hpt
     obtain ⟨f1, f2, f3, f4, f5, f6⟩ := frame_clientEvent { c with draining := qd && c.draining } (.reqEOM ne)
     simp only [W.fin, AEv.isReqErr, AEv.isReqHeaders] at *
     simp_all
+  | reqTrailers =>
+    obtain ⟨f1, f2, f3, f4, f5, f6⟩ := frame_clientEvent { c with draining := qd && c.draining } .reqTrailers
+    simp only [W.fin, AEv.isReqErr, AEv.isReqHeaders] at *
+    simp_all
+  | respTrailers =>
+    obtain ⟨f1, f2, f3, f4, f5, f6⟩ := frame_serverEvent { c with draining := qd && c.draining } .respTrailers
+    simp only [W.fin, AEv.isReqErr, AEv.isReqHeaders] at *
+    simp_all
   | respHeaders e k v =>
     obtain ⟨f1, f2, f3, f4, f5, f6⟩ := frame_serverEvent { c with draining := qd && c.draining } (.respHeaders e k v)
     simp only [W.fin, AEv.isReqErr, AEv.isReqHeaders] at *
@@ -267,6 +275,11 @@ theorem gi_handle (s : St) (ev : Ev) (qd : Bool) (rq : RqPhase) (h : GI s.core (
         have h2 := hperr rfl
         simp only [abstractEv, grammarOk, Bool.or_eq_true, Bool.not_eq_eq_eq_not, Bool.not_true]
         exact h2
+      | reqTrailers =>
+        have h2 := hperr rfl
+        simp only [abstractEv, grammarOk, Bool.or_eq_true, Bool.not_eq_eq_eq_not, Bool.not_true]
+        exact h2
+      | respTrailers => exact hatt rfl
       | reqErr => rfl
       | respHeaders e n k => exact hatt rfl
       | respData n => exact hatt rfl
